@@ -282,7 +282,38 @@ func (p *Prog) mapOrderFindings(fn *ssa.Function) []orderFinding {
 								}
 							})
 						}
-						if sorted {
+						// the sort must be on every path from the append to a return that hands the slice out
+						var skipRet *ssa.Return
+						if sorted && x.fn == fn {
+							isSort := func(j ssa.Instruction) bool {
+								c, ok := j.(*ssa.Call)
+								if !ok || !sortCallees[calleeName(&c.Call)] || len(c.Call.Args) == 0 {
+									return false
+								}
+								for y := range backSlice(c.Call.Args[0], SliceOpts{}) {
+									if y == ssa.Value(i) {
+										return true
+									}
+								}
+								return false
+							}
+							for _, ret := range returnsOf(fn) {
+								carries := false
+								for _, rv := range ret.Results {
+									for y := range backSlice(unspill(rv), SliceOpts{}) {
+										if y == ssa.Value(i) {
+											carries = true
+										}
+									}
+								}
+								if carries && existsPath(fn, i, ret, isSort) {
+									skipRet = ret
+								}
+							}
+						}
+						if skipRet != nil {
+							add(i.Pos(), "append, sort skipped on some path", false, "a slice is built by appending in map iteration order and is returned (at "+p.pos(skipRet.Pos())+") on a path that does not sort it: its element order differs from run to run")
+						} else if sorted {
 							add(i.Pos(), "append then sort", true, "the slice built in map order is sorted before use")
 						} else {
 							add(i.Pos(), "append without sort", false, "a slice is built by appending in map iteration order and never sorted: its element order differs from run to run")
